@@ -412,7 +412,9 @@ fn gen_indices(rng: &mut Rng, adds: &[(u32, String, u32)]) -> Vec<u32> {
     // keep Roman numerals short enough for the model's quadratic `acc ++ s`
     idx.retain(|&i| {
         match applicable(adds, i) {
-            Some((s, sty, st)) if sty == "R" || sty == "r" => (*st as u64) + ((i - s) as u64) <= 3_000_000 || (*st as u64) + ((i - s) as u64) > u32::MAX as u64,
+            // (since repair 707b2902 a sum beyond u32::MAX saturates instead of panicking, so it is a
+            // 4.3-million-letter numeral too: saturation is exercised through the other styles)
+            Some((s, sty, st)) if sty == "R" || sty == "r" => (*st as u64) + ((i - s) as u64) <= 3_000_000,
             _ => true,
         }
     });
